@@ -4,6 +4,7 @@ import Babble.Props.C02
 import Babble.Props.C03
 import Babble.Props.C04
 import Babble.Props.C07
+import Babble.Props.C08
 import Babble.Props.C16
 import Babble.Props.C18
 import Babble.Props.C19
